@@ -5,7 +5,7 @@
 3. applies it to /repo, runs the given checks (default: the property's own), records which report a violation, and restores /repo."""
 import json, os, shutil, subprocess, sys
 wt, X, sid, prop = sys.argv[1:5]
-checks = sys.argv[5:] or [prop]
+checks = [prop] + [c for c in sys.argv[5:] if c != prop]
 ROOT = "/verif"
 def run(cmd, cwd=None, env=None, timeout=3600):
     e = dict(os.environ); e.update(env or {})
